@@ -8,7 +8,9 @@
    result), the external call sequence xs (the same calls, events_run, events_spin), the poll
    answers pl (ready sets with ERR/HUP, EINTR with and without an interrupt request) and the clock
    readings cl.  Hypotheses (runs_to5): timer timeouts and clock readings are normalised timevals
-   (tv_usec < 1000000), descriptors are C ints (fd < 2^31), and the clock readings do not decrease
+   (tv_usec < 1000000), descriptors are C ints (fd < 2^31 = FD_LIMIT, the range of the type; the
+   one value INT_MAX is refused by growpollfd's assert(fd < INT_MAX), in the model: AssertFail, so
+   no trace - see C05_model_run_or_out_of_fuel), and the clock readings do not decrease
    (monoclock_get) - the last one is what makes "reset only moves a deadline later" true, which
    timerqueue_increase relies on.  The theorems hold for every fuel; when the fuel is too small the
    model returns OutOfFuel and there is no trace (Events/EventsExamples5.v shows two instances that
@@ -19,7 +21,7 @@
    in Events/EventsSpec.v, Part 3b, independently of the model; live_imm / live_tmr / deadline /
    reg_before / is_call / intr_pending / last_rc / min_deadline / timeout_ok are defined there too. *)
 From Coq Require Import NArith ZArith List.
-From LCP Require Import Base.CheckedMem Events.EventsTrace Events.EventsSpec Events.EventsModel Events.EventsNetInv Events.EventsSpecProofs Events.EventsInv Events.EventsRun5 Events.EventsRun5Frame Events.EventsC05 Events.EventsExamples5.
+From LCP Require Import Base.CheckedMem Events.EventsTrace Events.EventsSpec Events.EventsModel Events.EventsNetInv Events.EventsSpecProofs Events.EventsInv Events.EventsRun5 Events.EventsRun5Frame Events.EventsC05 Events.EventsExamples5 Events.EventsProgress.
 Import ListNotations.
 
 (* the inductive invariant (Appendix B: EvInv with I1, T1-T4, N1-N7) in its consequence form: the
@@ -112,12 +114,42 @@ Theorem C05_stops_dispatch :
 Proof. exact runs_to5_stops. Qed.
 Print Assumptions C05_stops_dispatch.
 
-(* (e) events not yet run stay registered: in the state s the model ends in, every registration
-   that is live in the trace (registered, neither cancelled nor invoked) is held by the library -
-   in the immediate queue of its priority, in its descriptor's reader / writer field, or in the
-   timer heap with its timeout *)
+(* (e) events not yet run stay registered.  THIS IS A STATEMENT ABOUT THE MODEL'S FINAL STATE, NOT
+   ABOUT THE TRACE: registered_in s r k inspects the internal structures of the state s in which
+   the model's run ends (ends_in), which no client of the library - and therefore no trace of the
+   implementation - can observe.  It says: every registration that is live in the trace
+   (registered, neither cancelled nor invoked) is still held by the model - in the immediate queue
+   of its priority, in its descriptor's reader / writer field, or in the timer heap with its
+   timeout.  Its observable consequences are the trace clauses above (a live registration is
+   invoked later when it becomes due: C05_wake_runs, C05_choice_priority, the order clauses) and
+   C04_reregistrable (EEXIST while live); the C is tied to it only through the equality of the
+   implementation's and the model's traces on the continuations the correspondence run executes. *)
 Theorem C05_pending_stay_registered :
   forall p xs pl cl fuel s, ends_in p xs pl cl fuel s ->
   forall r k, live_in (rev (s_tr s)) r -> kind_of (rev (s_tr s)) r = Some k -> registered_in s r k.
 Proof. exact ends_in_registered. Qed.
 Print Assumptions C05_pending_stay_registered.
+
+(* ---------------------------------------------------------------- runs that return no trace *)
+(* The theorems above are conditional on the model returning a trace / a final state.  The model
+   never answers Fault (C04_model_never_faults, for every input, no hypothesis) and answers
+   AssertFail only for arguments outside the API's contract (C04_model_asserts_only_outside_contract:
+   prog_safe / xop_safe = every events_immediate_register has prio < 32, every
+   events_network_register has fd < INT_MAX).  Hence, with the hypotheses of runs_to5 / ends_in and
+   that contract, the run satisfies runs_to5 (resp. ends_in) unless the fuel given to the
+   dispatcher loops was too small.  Non-vacuity: EventsExamples5.ex5_hyps + ex5_safe. *)
+Theorem C05_model_run_or_out_of_fuel :
+  forall p xs pl cl fuel,
+    prog_norm5 p -> Forall xop_norm5 xs -> Forall (fun t => tv_norm t = true) cl -> clocks_from (0, 0)%N cl ->
+    prog_safe p -> Forall xop_safe xs ->
+    (exists tr, runs_to5 p xs pl cl fuel tr) \/ run_case p xs pl cl fuel = OutOfFuel.
+Proof. exact runs_to5_or_out_of_fuel. Qed.
+Print Assumptions C05_model_run_or_out_of_fuel.
+
+Theorem C05_model_ends_or_out_of_fuel :
+  forall p xs pl cl fuel,
+    prog_norm5 p -> Forall xop_norm5 xs -> Forall (fun t => tv_norm t = true) cl -> clocks_from (0, 0)%N cl ->
+    prog_safe p -> Forall xop_safe xs ->
+    (exists s, ends_in p xs pl cl fuel s) \/ run_case p xs pl cl fuel = OutOfFuel.
+Proof. exact ends_in_or_out_of_fuel. Qed.
+Print Assumptions C05_model_ends_or_out_of_fuel.
